@@ -386,6 +386,14 @@ def extract(repo="/repo"):
     if dt is None:
         raise ExtractError("create_dispatcher: `ping_timeout or 10` not found")
     T["dispatcherDefaultTimeout"] = dt
+
+    # ------------------------------------------------------------------ plug-ins (one per op group)
+    import importlib
+    sys.path.insert(0, HERE)
+    for name in ("extract_h1", "extract_h2", "extract_app"):
+        if os.path.exists(os.path.join(HERE, name + ".py")):
+            mod = importlib.import_module(name)
+            mod.extend(repo, T, sys.modules[__name__])
     return T
 
 
